@@ -132,11 +132,20 @@ type c14Cache struct {
 }
 
 // Set counts completed write-backs (cache writes made by goroutines the harness did
-// not start), so that quiescence is decided logically.
+// not start), so that quiescence is decided logically, and tells the write-back's
+// scheduler thread that it is finished.
 func (c *c14Cache) Set(key string, v any, ttl time.Duration) error {
 	err := c.Gated.Set(key, v, ttl)
-	if !c.w.isHarnessGoroutine(c14Gid()) {
+	g := c14Gid()
+	if !c.w.isHarnessGoroutine(g) {
 		c.w.wbDone.Add(1)
+		c.w.mu.Lock()
+		px := c.w.bgProxy[g]
+		delete(c.w.bgProxy, g)
+		c.w.mu.Unlock()
+		if px != nil {
+			close(px.done)
+		}
 	}
 	return err
 }
@@ -146,15 +155,26 @@ type c14Pers struct {
 	w *c14World
 }
 
-// Get counts reads that found a value: on this tree each of them is followed by one
+// Get notices reads that found a value: on this tree each of them is followed by one
 // asynchronous cache write-back.
 func (p *c14Pers) Get(key string) (any, error) {
 	v, err := p.MapPersistent.Get(key)
 	if err == nil {
-		p.w.wbExpected.Add(1)
-		p.w.markHit(c14Gid())
+		p.w.onPersHit(c14Gid())
 	}
 	return v, err
+}
+
+// c14Proxy is the scheduler thread standing for one asynchronous write-back. It is
+// registered synchronously (on the goroutine whose read triggers the write-back), so
+// the set of schedulable threads never depends on Go runtime timing; when the scheduler
+// releases it, it lets the real write-back goroutine pass its gate and waits for the
+// cache write to finish.
+type c14Proxy struct {
+	name    string
+	arrived chan struct{}
+	release chan struct{}
+	done    chan struct{}
 }
 
 // c14NoAsyncWB is set when the tree under test evidently has no asynchronous
@@ -175,6 +195,9 @@ type c14World struct {
 	threads  map[int64]string
 	bgName   map[int64]string
 	bgSeq    int
+	proxies  []*c14Proxy // registered, not yet claimed by a write-back goroutine
+	bgProxy  map[int64]*c14Proxy
+	stopped  chan struct{}
 	calls    map[string]int
 	cur      map[string]*c14HOp
 	log      []c14TierOp
@@ -185,9 +208,10 @@ type c14World struct {
 	phase      atomic.Int32 // 0 prologue, 1 scheduled, 2 epilogue
 	clock      atomic.Int64
 	wbExpected atomic.Int64
-	wbArrived  atomic.Int64
 	wbDone     atomic.Int64
 	watchdog   atomic.Int32
+	wbMissing  atomic.Int32
+	ungated    atomic.Int32
 	cancel     context.CancelFunc
 }
 
@@ -206,7 +230,7 @@ func c14Gid() int64 {
 func c14NewWorld(tp c14Topo, cat c14Cat, key string, s *vk.Sched, fault *c14Fault) *c14World {
 	ctx, cancel := context.WithCancel(context.Background())
 	w := &c14World{topo: tp, cat: cat, key: key, sched: s, fault: fault, cancel: cancel,
-		threads: map[int64]string{}, bgName: map[int64]string{}, calls: map[string]int{}, cur: map[string]*c14HOp{}}
+		threads: map[int64]string{}, bgName: map[int64]string{}, bgProxy: map[int64]*c14Proxy{}, stopped: make(chan struct{}), calls: map[string]int{}, cur: map[string]*c14HOp{}}
 	mk := func(tier string) *c14Cache {
 		c := &c14Cache{Gated: vk.NewGated(tier, memory.New(ctx)), w: w}
 		c.SetHook(w.hook)
@@ -249,10 +273,11 @@ func (w *c14World) isHarnessGoroutine(g int64) bool {
 	return ok
 }
 
-// markHit flags the latest persistent-tier Get of the calling goroutine as a hit.
-func (w *c14World) markHit(g int64) {
+// onPersHit flags the latest persistent-tier Get of the calling goroutine as a hit and
+// registers the scheduler thread of the write-back that will follow.
+func (w *c14World) onPersHit(g int64) {
+	w.wbExpected.Add(1)
 	w.mu.Lock()
-	defer w.mu.Unlock()
 	name, ok := w.threads[g]
 	if !ok {
 		name = w.bgName[g]
@@ -260,9 +285,48 @@ func (w *c14World) markHit(g int64) {
 	for i := len(w.log) - 1; i >= 0; i-- {
 		if t := &w.log[i]; t.Thread == name && t.Tier == "pers" && t.Op == "Get" {
 			t.Hit = true
-			return
+			break
 		}
 	}
+	s := w.sched
+	var px *c14Proxy
+	if w.phase.Load() == 1 && s != nil && c14NoAsyncWB.Load() < 3 {
+		w.bgSeq++
+		px = &c14Proxy{name: fmt.Sprintf("wb%d", w.bgSeq), arrived: make(chan struct{}), release: make(chan struct{}), done: make(chan struct{})}
+		w.proxies = append(w.proxies, px)
+	}
+	w.mu.Unlock()
+	if px == nil {
+		return
+	}
+	s.Go(px.name, func() {
+		select {
+		case <-px.arrived:
+		case <-time.After(100 * time.Millisecond):
+			// no write-back goroutine showed up (a tree without asynchronous write-back)
+			w.mu.Lock()
+			for i, q := range w.proxies {
+				if q == px {
+					w.proxies = append(w.proxies[:i], w.proxies[i+1:]...)
+					break
+				}
+			}
+			w.mu.Unlock()
+			select {
+			case <-px.arrived: // claimed in the meantime
+			default:
+				c14NoAsyncWB.Add(1)
+				w.wbMissing.Add(1)
+				return
+			}
+		}
+		close(px.release)
+		select {
+		case <-px.done:
+		case <-time.After(2 * time.Second):
+			w.watchdog.Add(1)
+		}
+	})
 }
 
 func (w *c14World) setPhase(p int) { w.phase.Store(int32(p)) }
@@ -273,22 +337,37 @@ func (w *c14World) hook(tier, op, key string) error {
 	g := c14Gid()
 	w.mu.Lock()
 	name, harness := w.threads[g]
+	phase := int(w.phase.Load())
+	s := w.sched
+	var px *c14Proxy
 	if !harness {
 		name = w.bgName[g]
 		if name == "" {
-			w.bgSeq++
-			name = fmt.Sprintf("bg%d", w.bgSeq)
+			if phase == 1 && len(w.proxies) > 0 {
+				px = w.proxies[0]
+				w.proxies = w.proxies[1:]
+				w.bgProxy[g] = px
+				name = px.name
+			} else {
+				w.bgSeq++
+				name = fmt.Sprintf("wb%d", w.bgSeq)
+			}
 			w.bgName[g] = name
 		}
 	}
-	phase := int(w.phase.Load())
-	s := w.sched
 	w.mu.Unlock()
-	if !harness && op == "Set" {
-		w.wbArrived.Add(1)
-	}
-	if phase == 1 && s != nil {
+	if px != nil {
+		close(px.arrived)
+		select {
+		case <-px.release:
+		case <-w.stopped:
+		case <-time.After(10 * time.Second):
+			w.watchdog.Add(1)
+		}
+	} else if harness && phase == 1 && s != nil {
 		s.Yield(tier + "." + op)
+	} else if !harness && phase == 1 {
+		w.ungated.Add(1) // a background goroutine nobody announced: runs unscheduled
 	}
 	w.mu.Lock()
 	defer w.mu.Unlock()
@@ -311,31 +390,6 @@ func (w *c14World) hook(tier, op, key string) error {
 		return vk.ErrInjected
 	}
 	return nil
-}
-
-// awaitArrived makes a worker wait until every write-back goroutine spawned so far
-// has reached its gate, so that the set of schedulable threads does not depend on Go
-// runtime timing.
-func (w *c14World) awaitArrived() {
-	if c14NoAsyncWB.Load() >= 3 {
-		return
-	}
-	exp := w.wbExpected.Load()
-	if w.wbArrived.Load() >= exp {
-		return
-	}
-	deadline := time.Now().Add(100 * time.Millisecond)
-	for w.wbArrived.Load() < exp {
-		if time.Now().After(deadline) {
-			c14NoAsyncWB.Add(1)
-			w.watchdog.Add(1)
-			return
-		}
-		runtime.Gosched()
-	}
-	for i := 0; i < 40; i++ { // let it park inside Yield
-		runtime.Gosched()
-	}
 }
 
 // awaitDone waits (bounded) until every expected write-back completed.
@@ -437,9 +491,6 @@ func (w *c14World) do(thread string, st c14Step) *c14HOp {
 	w.mu.Lock()
 	delete(w.cur, thread)
 	w.mu.Unlock()
-	if w.phase.Load() == 1 {
-		w.awaitArrived()
-	}
 	return op
 }
 
